@@ -1259,15 +1259,17 @@ impl<Sink: TokenSink> Tokenizer<Sink> {
             // Use peek so we can handle the first attr character along with the rest,
             // hopefully in the same zero-copy buffer.
             states::BeforeAttributeValue => loop {
-                match peek!(self, input) {
+                let c = peek!(self, input);
+                // The reads below are raw, so a pending "skip the LF that follows a CR" is
+                // resolved here: that LF was already counted with its CR.
+                if self.ignore_lf.take() && c == '\n' {
+                    self.discard_char(input);
+                    continue;
+                }
+                match c {
                     '\t' | '\x0C' | ' ' => go!(self: discard_char input),
-                    // The LF of a CRLF pair was already counted with its CR.
-                    '\n' if self.ignore_lf.get() => {
-                        self.ignore_lf.set(false);
-                        go!(self: discard_char input)
-                    },
-                    // Other line breaks go through the input preprocessor so that they are
-                    // normalized and counted.
+                    // Line breaks go through the input preprocessor so that they are normalized
+                    // and counted.
                     '\n' | '\r' => {
                         get_char!(self, input);
                     },
